@@ -647,6 +647,15 @@ fn c04(case: &Case, ctx: &Ctx, rpt: &mut Report) {
             }
         }
     }
+    // Captures reported for the postfix of a partition describe the postfix expression.
+    if let Some((_, Some(post))) = guarded(|| case.glob.clone().partition()) {
+        let post_expr = post.to_string();
+        let flags_before_tree = case.ast.as_ref().map_or(false, |a| {
+            a.seq.toks.iter().any(|t| matches!(t.node, Node::Tree { lead: true, .. }) && t.span.0 != t.core.0)
+        });
+        crate::monitors::group_b::check_capture_spans(&post_expr, &post, "postfix", ctx, rpt, flags_before_tree);
+        rpt.bucket("postfix-captures-checked");
+    }
     if n > 0 && matched_paths > 0 {
         rpt.nontrivial.insert(hash_str(case.expr));
         rpt.bucket("globs-with-captures-and-matches");
